@@ -13,7 +13,7 @@ import (
 func init() { props["C41"] = runC41 }
 
 func runC41(h *hx.H) {
-	h.Rule = "toposort: every digraph on <=3 (quick) / <=4 (thorough) nodes x every ordered root list of <=2 nodes (duplicates allowed), each sorted on a fresh Sorter and on one used before (a complete iteration, or one the consumer left after 1 or 2 nodes); trie: every ordered list of <=3 keys over strings of length <=3 from {a,b} x every query of length <=4, plus growth families that force the node index width to grow; non-trivial = graph with >=1 edge / key set with a shared prefix"
+	h.Rule = "toposort: every digraph on <=3 (quick) / <=4 (thorough) nodes x every ordered root list of <=2 nodes (duplicates allowed), each sorted on a fresh Sorter and on one used before (a complete iteration, or one the consumer left after 1 or 2 nodes); trie: every ordered list of <=3 keys over strings of length <=3 from {a,b} x every query of length <=4, every ordered pair of keys of <=2 bytes over {a, q, 0xC3, 0xA9, 0xE9, NUL, 0xFF} x every query of <=3 such bytes, plus growth families that force the node index width to grow; non-trivial = graph with >=1 edge / key set with a shared prefix"
 	maxN := 3
 	if h.Thorough() {
 		maxN = 4
@@ -297,6 +297,38 @@ func runTrie(h *hx.H) {
 				}
 			}
 		}
+	}
+	// keys and queries as byte strings: every ordered pair of keys of <=2 bytes over
+	// {a, q, 0xC3, 0xA9, 0xE9, 0x00, 0xFF} (UTF-8 lead and continuation bytes, a Latin-1 byte that is
+	// the rune of the two-byte sequence, NUL, an invalid byte), queries of <=3 bytes over the same
+	{
+		balpha := []string{"a", "q", "\xc3", "\xa9", "\xe9", "\x00", "\xff"}
+		var bkeys, bqueries []string
+		var g func(p string, n int, out *[]string)
+		g = func(p string, n int, out *[]string) {
+			*out = append(*out, p)
+			if len(p) == n {
+				return
+			}
+			for _, c := range balpha {
+				g(p+c, n, out)
+			}
+		}
+		g("", 2, &bkeys)
+		g("", 3, &bqueries)
+		saved := queries
+		queries = bqueries
+		for _, a := range bkeys {
+			if idx, run := h.NextN(); run {
+				check(hx.CaseID(idx), []string{a})
+			}
+			for _, b := range bkeys {
+				if idx, run := h.NextN(); run {
+					check(hx.CaseID(idx), []string{a, b})
+				}
+			}
+		}
+		queries = saved
 	}
 	// growth families: node index width 8 -> 16 -> 32 bits; every key re-checked after growth steps
 	sizes := []int{400}
